@@ -157,6 +157,7 @@ func (b *Buffer) SetMode(newMode OutputMode)
   requires 0 <= newMode && newMode <= 2
   ensures b.mode == newMode
   ensures old(b.mode) != newMode ==> !b.markerOpen && b.validUntil == len(b.buf)
+  ensures [C01] old(b.mode) != newMode ==> clean(b.buf, len(b.buf))
   ensures old(b.mode) == newMode ==> b.buf == old(b.buf) && b.validUntil == old(b.validUntil) && b.markerOpen == old(b.markerOpen) && memUnchanged()
   ensures [C13] kept(b.buf)
 
